@@ -177,8 +177,16 @@ static struct {
     PSymbolEntry  pEntry;        /* entry whose redefinition requested the repass */
     LargeInt      OldValue;      /* its value from the previous pass */
     unsigned long RequestSerial; /* value of RepassRequests right after the request */
+    PSymbolEntry  pTwin;         /* the label proper, when pEntry is its GLOBAL alias
+                                    (entered first, same old and new value) */
+    Boolean       TwinMoved;     /* one of the two has been moved back already */
 } LastPhaseErr;
 static unsigned long RepassRequests; /* counts all requests made in this module */
+
+/* the qualified alias (section_name) EnterSymbol() last created beside a
+   symbol exported with GLOBAL, NULL if the last symbol had none */
+
+static PSymbolEntry LastAliasEntry;
 static PDefSymbol   FirstDefSymbol;
 /*static*/ PCToken  FirstSection;
 static Boolean      DoRefs, /* Querverweise protokollieren */
@@ -2161,6 +2169,21 @@ static Boolean SymbolAdder(PTree* PDest, PTree Neu, void* pData) {
                     LastPhaseErr.pEntry        = NewEntry;
                     LastPhaseErr.OldValue      = (*Node)->SymWert.Contents.Int;
                     LastPhaseErr.RequestSerial = RepassRequests + 1;
+                    LastPhaseErr.pTwin         = NULL;
+                    LastPhaseErr.TwinMoved     = False;
+                }
+
+                /* the label proper right behind its alias, with the very same
+                   apparent phase error: one affair */
+
+                else if ((NewEntry->SymWert.Typ == TempInt) && LastPhaseErr.pEntry
+                         && (LastPhaseErr.pEntry == LastAliasEntry) && !LastPhaseErr.pTwin
+                         && (RepassRequests == LastPhaseErr.RequestSerial)
+                         && ((*Node)->SymWert.Contents.Int == LastPhaseErr.OldValue)
+                         && (NewEntry->SymWert.Contents.Int
+                             == LastPhaseErr.pEntry->SymWert.Contents.Int)) {
+                    LastPhaseErr.pTwin         = NewEntry;
+                    LastPhaseErr.RequestSerial = RepassRequests + 1;
                 }
                 RepassRequests++;
                 Repass = True;
@@ -2220,6 +2243,10 @@ static void EnterSymbol_Search(
     }
 }
 
+struct sSymbolEntry* GetLastSymbolAlias(void) {
+    return LastAliasEntry;
+}
+
 static Boolean EnterSymbol(PSymbolEntry Neu, Boolean MayChange, LongInt ResHandle) {
     PForwardSymbol  Lauf, Prev;
     PForwardSymbol* RRoot;
@@ -2235,6 +2262,7 @@ static Boolean EnterSymbol(PSymbolEntry Neu, Boolean MayChange, LongInt ResHandl
         NLS_UpString(Neu->Tree.Name);
     }
 
+    LastAliasEntry        = NULL;
     SearchErg             = 0;
     EnterStruct.MayChange = MayChange;
     EnterStruct.DoCross   = MakeCrossList;
@@ -2278,6 +2306,9 @@ static Boolean EnterSymbol(PSymbolEntry Neu, Boolean MayChange, LongInt ResHandl
                        = Copy->SymWert.Contents.str.capacity = l);
             }
             EnterTree(&TreeRoot, &(Copy->Tree), SymbolAdder, &EnterStruct);
+            if (!EnterStruct.Rejected) {
+                LastAliasEntry = Copy;
+            }
         }
         if (Lauf) {
             free(Lauf->Name);
@@ -2316,11 +2347,24 @@ void ChangeSymbol(PSymbolEntry pEntry, LargeInt Value) {
        and nothing else asked for another pass since: the phase error was
        only apparent */
 
-    if ((pEntry == LastPhaseErr.pEntry) && (Value == LastPhaseErr.OldValue)
+    if (LastPhaseErr.pEntry && LastPhaseErr.pTwin
+        && ((pEntry == LastPhaseErr.pEntry) || (pEntry == LastPhaseErr.pTwin))
+        && (Value == LastPhaseErr.OldValue)
         && (RepassRequests == LastPhaseErr.RequestSerial)) {
+        /* label and alias are moved one after the other: withdraw when both are back */
+
+        if (!LastPhaseErr.TwinMoved) {
+            LastPhaseErr.TwinMoved = True;
+            return;
+        }
+        Repass = False;
+    } else if ((pEntry == LastPhaseErr.pEntry) && !LastPhaseErr.pTwin
+               && (Value == LastPhaseErr.OldValue)
+               && (RepassRequests == LastPhaseErr.RequestSerial)) {
         Repass = False;
     }
     LastPhaseErr.pEntry = NULL;
+    LastPhaseErr.pTwin  = NULL;
 }
 
 /*!------------------------------------------------------------------------
